@@ -119,7 +119,7 @@ def step_code(act):
     if n == "Drop":
         return nv.op("DROP")
     if n == "End":
-        return b""
+        return b"\x61"          # NOP (an empty script is not executable)
     raise ValueError("no bytecode for model action %r" % (act,))
 
 
@@ -139,11 +139,11 @@ def model_check(ctx):
     (2) TLC enumerates the WHAT-IF model (every producer with an absent target hands out such a handle): its
     behaviours are the adversarial scripts, and the crash states TLC reaches in it show that the specification
     expresses the failure class.  Returns (design result, what-if result, edges, inits)."""
-    r = ctx.tlc("NeoVMInterop_MC", cfg="NeoVMInterop_C12.cfg", workers=None, timeout=900, tags=())
+    r = ctx.tlc("NeoVMInterop_MC", cfg="NeoVMInterop_C12t.cfg" if ctx.thorough else "NeoVMInterop_C12.cfg", workers=None, timeout=900, tags=())
     if r.status != "ok":
         ctx.infra("TLC did not verify Total / NoNilHandle on spec/NeoVMInterop.tla: %s %s %s" % (r.status, r.violated, r.errors[:2]))
         return r, None, [], []
-    x = ctx.tlc("NeoVMInterop_MC", cfg="NeoVMInterop_C12x.cfg", workers=1, timeout=900)
+    x = ctx.tlc("NeoVMInterop_MC", cfg="NeoVMInterop_C12xt.cfg" if ctx.thorough else "NeoVMInterop_C12x.cfg", workers=1, timeout=1200)
     if x.status != "ok":
         ctx.infra("TLC on the what-if model of spec/NeoVMInterop.tla: %s %s %s" % (x.status, x.violated, x.errors[:2]))
         return r, x, [], []
@@ -186,10 +186,13 @@ def scripts_of(ctx, edges, inits, max_len):
     return out, ncov
 
 
-def item_of(i, s, nsteps=None, drop=False):
+def item_of(i, s, nsteps=None):
     steps = s["steps"] if nsteps is None else s["steps"][:nsteps]
-    code = b"".join(step_code(x["act"]) for x in steps) + (nv.op("DROP") if drop else b"")
-    return {"id": i, "hex": code.hex(), "preexec": s["mode"] == "pre", "legacy": s["api"] == "legacy"}
+    code, cuts = b"", []
+    for x in steps:
+        code += step_code(x["act"])
+        cuts.append(len(code))
+    return {"id": i, "hex": code.hex(), "preexec": s["mode"] == "pre", "legacy": s["api"] == "legacy", "cuts": cuts}
 
 
 def story(s, nsteps=None):
@@ -203,8 +206,10 @@ DEAD = ("crash", "stack-overflow", "oom", "timeout")
 
 def crash_key(s, k, at_end):
     """structural key of a death.  at_end = False: step number k (1-based) is fatal; at_end = True: the conversion of the
-    item that the first k steps leave on the stack (pre-execution result).  The handle in use = the steps since the stack
-    was last empty."""
+    item that the first k steps leave on the stack (pre-execution result).  The item in use = the steps since the stack
+    was last empty.  When the what-if model says that this item is a handle to nothing, the root cause is the PRODUCER
+    that handed it out for an absent target (one key per producer and target class, the consumers go into the detail);
+    otherwise the key names the whole chain and the consumer."""
     steps = s["steps"]
     n_chain = k if at_end else k - 1
     prod = 0
@@ -213,51 +218,21 @@ def crash_key(s, k, at_end):
         if frm["t"] == "empty":
             prod = j
             break
-    chain = "->".join(act_text(x["act"]) for x in steps[prod:n_chain]) or "(empty stack)"
+    chain = steps[prod:n_chain]
     cons = "Result(pre-execution)" if at_end else act_text(steps[k - 1]["act"])
-    return "InteropHandle:%s:%s:process-death" % (chain, cons)
-
-
-def locate(ctx, binary, scripts, dead, nproc):
-    """fatal step of every dead script: its prefixes, with and without a trailing DROP (pre-execution converts the
-    item left on the stack, which is a consumer of its own)"""
-    pitems, owner = [], {}
-    for (i, o) in dead:
-        s = scripts[i]
-        for k in range(1, len(s["steps"]) + 1):
-            nonempty = s["steps"][k - 1]["to"]["top"]["t"] != "empty" and s["steps"][k - 1]["to"]["status"] == "run"
-            for drop in (False, True):
-                if (k == len(s["steps"]) and not drop) or (drop and not (nonempty and s["mode"] == "pre")):
-                    continue
-                pid = len(scripts) + len(pitems)
-                owner[pid] = (i, k, drop)
-                pitems.append(item_of(pid, s, k, drop))
-    pres, pdeaths = nv.run_children_parallel(ctx, binary, "TestVerifInterop", pitems, "interop-prefix", 120, nproc, mem_gb=6,
-                                             extra_env=ENV, defop="run", max_deaths=4000) if pitems else ([], 0)
-    died = {}
-    for o in pres:
-        if o.get("op") == "fixture" or o["out"] not in DEAD:
-            continue
-        i, k, drop = owner[o["id"]]
-        died.setdefault(i, {})[(k, drop)] = o
-    out = []
-    for (i, o) in dead:
-        s = scripts[i]
-        d = died.get(i, {})
-        d[(len(s["steps"]), False)] = o
-        k = min(kk for (kk, _) in d)
-        if s["mode"] == "pre" and (k, True) not in d and s["steps"][k - 1]["to"]["top"]["t"] != "empty":
-            out.append((s, k, True, d[(k, False)]))          # survives when the item is dropped: the result conversion kills
-        else:
-            out.append((s, k, False, d.get((k, True)) or d[(k, False)]))
-    return out, pdeaths
+    nil_by = [x for x in chain if not x["to"]["top"]["valid"]]
+    if nil_by:
+        return "InteropHandle:%s:absent-target-handle-used:process-death" % act_text(nil_by[0]["act"]), cons
+    return "InteropHandle:%s:%s:process-death" % ("->".join(act_text(x["act"]) for x in chain) or "(empty stack)", cons), cons
 
 
 def replay(ctx, binary, scripts, nproc):
-    """run the scripts; returns (n_executed, n_halt, n_fault, deaths, crashes: list of (script, k, at_end, record), drift)"""
+    """run the scripts; returns (n_executed, n_halt, n_fault, deaths, crashes: list of (script, k, at_end, record), drift).
+    The harness recovers Go panics (outcome "crash") and locates the fatal step itself: fatal_k = shortest panicking
+    prefix (in steps), drop_survives = that prefix survives when its result is dropped."""
     items = [item_of(i, s) for i, s in enumerate(scripts)]
     res, deaths = nv.run_children_parallel(ctx, binary, "TestVerifInterop", items, "interop", 120, nproc, mem_gb=6, extra_env=ENV,
-                                           defop="run", max_deaths=1000)
+                                           defop="run", max_deaths=200)
     by_id = {}
     for o in res:
         if o.get("op") == "fixture":
@@ -265,34 +240,56 @@ def replay(ctx, binary, scripts, nproc):
                 ctx.infra("interop fixture: ledger height %s" % o.get("height"))
             continue
         by_id[o["id"]] = o
-    drift, dead = [], []
+    drift, crashes = [], []
     n_halt = n_fault = 0
     for i, s in enumerate(scripts):
         o = by_id.get(i)
         if o is None:
             continue
         if o["out"] in DEAD:
-            dead.append((i, o))
+            k = o.get("fatal_k") or len(s["steps"])          # a dead child (fatal error) is not located: whole script
+            k = max(1, min(k, len(s["steps"])))
+            after = s["steps"][k - 1]["to"]
+            at_end = bool(s["mode"] == "pre" and o.get("drop_survives") and after["top"]["t"] != "empty" and after["status"] == "run")
+            crashes.append((s, k, at_end, o))
             continue
         got = "halt" if o["ok"] else "fault"
         n_halt += got == "halt"
         n_fault += got == "fault"
         if got != s["want"]:
             drift.append((s, got, o.get("err", "") or o.get("result", "")))
-    crashes = []
-    if dead:
-        crashes, pdeaths = locate(ctx, binary, scripts, dead, nproc)
-        deaths += pdeaths
     return len(by_id), n_halt, n_fault, deaths, crashes, drift
 
 
-def check(ctx, binary, nproc):
-    """the whole interop part of C12; returns a dict of measured numbers for the evidence"""
-    r, x, edges, inits = model_check(ctx)
+def replay_file(ctx, binary, info):
+    """bin/check C12 --replay <file>: the scripts of a recorded interop violation"""
+    import json
+    rp = json.load(open(ctx.replay_in)).get("replay", {})
+    its = [dict(it, id=i) for i, it in enumerate(rp.get("interop") or [])]
+    if not its or not binary:
+        return info
+    res, deaths = nv.run_child(ctx, binary, "TestVerifInterop", [{k: it.get(k) for k in ("id", "hex", "preexec", "legacy", "cuts")} for it in its], "interop-replay",
+                               120, 6, "items", ENV, "run", 50)
+    info["executed"] = len([o for o in res if o.get("op") != "fixture"])
+    for o in res:
+        if o.get("op") != "fixture" and o["out"] in DEAD:
+            it = its[o["id"]]
+            ctx.violation("InteropHandle:replay:process-death", "script `%s` (%s) panics / kills the process (%s): %s"
+                          % (it.get("story", it["hex"][:80]), "pre-execution" if it["preexec"] else "transaction in a block", o["out"], (o.get("err") or "")[:260]),
+                          {"interop": [it]})
+    return info
+
+
+def check(ctx, binary, nproc, mc=None):
+    """the whole interop part of C12; returns a dict of measured numbers for the evidence.  mc = result of model_check
+    (the caller may have started it earlier, concurrently with its other work)"""
+    r, x, edges, inits = mc if mc is not None else model_check(ctx)
     info = {"tlc_design": {"distinct": r.distinct, "generated": r.generated, "wall": round(r.wall, 1)}, "edges": len(edges), "scripts": 0, "executed": 0}
     if x is not None:
         info["tlc_whatif"] = {"distinct": x.distinct, "generated": x.generated, "wall": round(x.wall, 1)}
-    if not edges or not binary or ctx.replay_in:
+    if ctx.replay_in:
+        return replay_file(ctx, binary, info)
+    if not edges or not binary:
         return info
     scripts, ncov = scripts_of(ctx, edges, inits, max_len=10)
     info.update({"scripts": len(scripts), "scripts_whatif": sum(1 for s in scripts if s["whatif"]), "edges_covered": ncov})
@@ -304,15 +301,36 @@ def check(ctx, binary, nproc):
         ctx.infra("interop: %d of %d scripts were not answered" % (len(scripts) - n, len(scripts)))
     viol = {}
     for (s, k, at_end, o) in crashes:
-        viol.setdefault(crash_key(s, k, at_end), []).append((s, k, at_end, o))
+        key, cons = crash_key(s, k, at_end)
+        viol.setdefault(key, []).append((s, k, at_end, o, cons))
     for key in sorted(viol):
-        s, k, at_end, o = viol[key][0]
+        s, k, at_end, o, _ = min(viol[key], key=lambda v: (v[1], v[0]["mode"] != "tx"))
         modes = sorted({"%s/%s" % (v[0]["mode"], v[0]["api"]) for v in viol[key]})
-        ctx.violation(key, "script `%s`%s (%s, %s syscall table, real ledger: genesis + 1 block) kills the process (%s): %s; %d script(s) of this class, modes %s"
+        conss = sorted({v[4] for v in viol[key]})
+        ctx.violation(key, "script `%s`%s (%s, %s syscall table, real ledger: genesis + 1 block) panics / kills the process (%s): %s; %d script(s) of this class, "
+                      "modes %s, fatal consumers: %s"
                       % (story(s, k), " then the result conversion" if at_end else "", "pre-execution" if s["mode"] == "pre" else "transaction in a block",
-                         s["api"], o["out"], (o.get("err") or "")[:260], len(viol[key]), modes),
+                         s["api"], o["out"], (o.get("err") or "")[:260], len(viol[key]), modes, ", ".join(conss)),
                       {"interop": [dict(item_of(0, v[0], v[1]), story=story(v[0], v[1])) for v in viol[key][:4]]})
     info["finding_classes"] = {k: len(v) for k, v in viol.items()}
+    # a what-if script that HALTS on the real code: a producer handed out a handle for an absent target and nothing
+    # dereferenced it.  Where the same producer is already reported above (its handle kills other scripts) this is the
+    # harmless face of that finding; anywhere else the specification does not describe the code.
+    fatal_producers = set()
+    for (s, k, at_end, o) in crashes:
+        n_chain = k if at_end else k - 1
+        fatal_producers |= {act_text(x["act"]) for x in s["steps"][:n_chain] if not x["to"]["top"]["valid"]}
+    unused = []
+    for d in list(drift):
+        s, got, err = d
+        nil_by = [x for x in s["steps"] if not x["to"]["top"]["valid"]]
+        if s["want"] == "fault" and got == "halt" and nil_by and act_text(nil_by[0]["act"]) in fatal_producers:
+            unused.append(d)
+            drift.remove(d)
+    info["absent_target_handle_unused"] = len(unused)
+    if unused:
+        ctx.log("interop: %d scripts halt although a producer met an absent target (handle handed out, never dereferenced): %s"
+                % (len(unused), sorted({act_text([x for x in u[0]["steps"] if not x["to"]["top"]["valid"]][0]["act"]) for u in unused})))
     if drift:
         classes = {}
         for (s, got, err) in drift:
